@@ -279,22 +279,26 @@ class timemodel(_coreiterative):
         # find first time to save if exists
         while (isave < nsave) and (self.Qn.time > tsave[isave]):
             isave += 1
+        if (isave < nsave) and (self.Qn.time == tsave[isave]): # save time equal to start time: initial state
+            Qnn = self.Qn.copy()
+            Qnn.it = self._itstart + self._nit
+            results.append(Qnn)
+            isave += 1
         # MAIN LOOP
         while not checkend:
             dtloc = self.modeldisc.calc_timestep(self.Qn, condition)
             mindtloc = min(dtloc) # mindtloc = dtloc
+            # specific steps, each from a copy of Qn, to save all the requested states reached by this step
+            while (isave < nsave) and (self.Qn.time+mindtloc >= tsave[isave]):
+                Qnn = self.Qn.copy()
+                # compute smaller step with same integrator
+                self.step(Qnn, tsave[isave]-self.Qn.time)
+                Qnn.it = self._itstart + self._nit
+                results.append(Qnn)
+                if verbose:
+                    print("save state at it {:5d} and time {:6.2e}".format(self._nit, Qnn.time))
+                isave += 1
             Qnn = self.Qn.copy()
-            if isave < nsave: # specific step to save result and go back to Qn
-                if self.Qn.time+mindtloc >= tsave[isave]:
-                    # compute smaller step with same integrator
-                    self.step(Qnn, tsave[isave]-self.Qn.time)
-                    Qnn.it = self._itstart + self._nit
-                    results.append(Qnn)
-                    if verbose:
-                        print("save state at it {:5d} and time {:6.2e}".format(self._nit, Qnn.time))
-                    isave += 1
-                    # step back to self.Qn
-                    Qnn = self.Qn.copy()
             self.step(Qnn, dtloc if dtlocal else mindtloc)
             self.Qn = Qnn
             self._nit += 1
